@@ -9,5 +9,10 @@ cd harness
 RUSTFLAGS="--cfg owlchess_verif" cargo build --offline --bin replay
 RUSTFLAGS="--cfg owlchess_verif" cargo build --offline --release --bin replay
 mkdir -p ../.build
-RUSTFLAGS="--cfg owlchess_verif" cargo kani --lib -Z stubbing -Z unstable-options --only-codegen --target-dir ../.build/slot0 --exact --harness registry::c20_geometry_table > ../.build/setup-kani.log 2>&1 || { tail -20 ../.build/setup-kani.log; exit 1; }
+# warm the build slots the runner uses (dependencies + owlchess compiled once per slot, in parallel)
+for i in 0 1 2 3 4 5 6 7 8 9 10 11; do
+  ( RUSTFLAGS="--cfg owlchess_verif" cargo kani --lib -Z stubbing -Z unstable-options --only-codegen --target-dir ../.build/slot$i --exact --harness registry::c20_geometry_table > ../.build/setup-kani-$i.log 2>&1 ) &
+done
+wait
+grep -q "error" ../.build/setup-kani-0.log && { tail -20 ../.build/setup-kani-0.log; exit 1; }
 echo setup ok
